@@ -15,6 +15,7 @@ import (
 	"verif/gen"
 	"verif/model"
 	"verif/probe"
+	"verif/ref"
 )
 
 // C02 — tampered, truncated, spliced, cross-key or reflected SK messages are rejected.
@@ -115,7 +116,19 @@ func (cx *c02Ctx) tryAltered(x []byte, class string, keys bridge.KeySet, recvI b
 		if err != nil && len(err.Error()) >= 12 && err.Error()[:12] == "ParseHeader:" {
 			continue // header cannot be pre-parsed: this mode does not exist for x
 		}
-		if len(x) > 16 && x[16] != 46 {
+		presentsSK := len(x) > 16 && x[16] == 46
+		if !presentsSK && len(x) >= 28 {
+			// the datagram still presents an Encrypted payload if one sits further down the chain (behind payloads the decoder
+			// skips): then it IS handled as a protected message and the alteration must be noticed
+			if raws, serr := ref.SplitLenient(x[16], x[28:]); serr == nil {
+				for _, r := range raws {
+					if r.Type == 46 {
+						presentsSK = true
+					}
+				}
+			}
+		}
+		if len(x) > 16 && !presentsSK {
 			// carve-out: no longer presents an Encrypted payload -> handled as an unprotected datagram, no key applied
 			want, werr := libUnprotect(x, nil, recvI, withHdr)
 			if probe.IsPanic(werr) {
@@ -344,6 +357,49 @@ func c02Oracle(in c02In) probe.Outcome {
 	for _, tail := range [][]byte{w2, w} {
 		if err := cx.tryAltered(append(append([]byte(nil), w...), tail...), "extension:genuine-message", in.Keys, recvI); err != nil {
 			return fail(err)
+		}
+	}
+	// a well-formed payload of a type the decoder skips, spliced in between the header and the SK payload (header octet 16 now
+	// names it, its next-payload field names SK), with and without the header length brought up to date
+	for _, ty := range []byte{1, 32, 49, 53, 128, 255} {
+		for _, body := range [][]byte{{}, {0, 1, 0, 2}, {1, 2, 3, 4, 5, 6, 7, 8, 9}} {
+			x := append([]byte(nil), w[:28]...)
+			x[16] = ty
+			x = append(x, 46, 0, 0, byte(4+len(body)))
+			x = append(x, body...)
+			x = append(x, w[28:]...)
+			if err := cx.tryAltered(x, "insert-before-sk", in.Keys, recvI); err != nil {
+				return fail(fmt.Errorf("payload of type %d inserted in front of SK: %w", ty, err))
+			}
+			y := append([]byte(nil), x...)
+			gen.FixHeaderLength(y)
+			if err := cx.tryAltered(y, "insert-before-sk+length", in.Keys, recvI); err != nil {
+				return fail(fmt.Errorf("payload of type %d inserted in front of SK, header length adjusted: %w", ty, err))
+			}
+		}
+	}
+	// the four header fields that say "initial request" rewritten together (exchange type IKE_SA_INIT, message id 0, responder
+	// SPI 0, flags of a request): still a protected message, still altered
+	{
+		x := append([]byte(nil), w...)
+		for i := 8; i < 16; i++ {
+			x[i] = 0
+		}
+		x[18], x[19] = 34, 0x08
+		x[20], x[21], x[22], x[23] = 0, 0, 0, 0
+		if !bytes.Equal(x, w) {
+			if err := cx.tryAltered(x, "header-rewritten-as-initial-request", in.Keys, recvI); err != nil {
+				return fail(err)
+			}
+		}
+		for _, fl := range []byte{0x00, 0x20, 0x28} {
+			y := append([]byte(nil), x...)
+			y[19] = fl
+			if !bytes.Equal(y, w) {
+				if err := cx.tryAltered(y, "header-rewritten-as-initial-exchange", in.Keys, recvI); err != nil {
+					return fail(err)
+				}
+			}
 		}
 	}
 	// (d) multi-octet edits
